@@ -82,6 +82,7 @@ type Hist struct {
 	stats map[string]int
 	inProbe bool
 	past    map[string][][]byte // earlier contents of each path (to return to an earlier state)
+	derived []Derived
 }
 
 var defaultComponents = []string{"a", "b", "d", "ad", "d-old", "lib", "lib.go", "lib-old", "lib0", "test", "test.c", "test-data",
@@ -273,6 +274,10 @@ func (h *Hist) X(tz int, args ...string) *Trans {
 		}
 		h.viols = append(h.viols, Finding{Kind: "spec-violation", Clause: v.Clause, Step: t.StepNo, Impl: res.Class,
 			Detail: v.Detail + " | cmd: goit " + strings.Join(args, " ") + " | stderr: " + clip(strings.TrimSpace(res.Stderr), 200), Sig: sig})
+	}
+	if d := deriveCmdLine(t); d != nil {
+		d.Step = t.StepNo
+		h.derived = append(h.derived, *d)
 	}
 	// ghost bookkeeping
 	if args[0] == "commit" && res.Class == "ok" {
@@ -712,7 +717,7 @@ func (h *Hist) junk(tz int) {
 	h.X(tz, cands[r.intn(len(cands))]...)
 }
 
-func runHistCase(ctx *Ctx, cfg *HistCfg, r *rng, idx int) (Case, []string, []Finding, map[string]int) {
+func runHistCase(ctx *Ctx, cfg *HistCfg, r *rng, idx int) (Case, []string, []Finding, map[string]int, []Derived) {
 	base := filepath.Join(ctx.Scratch, fmt.Sprintf("hist-%s-%d", cfg.Prop, idx))
 	os.RemoveAll(base)
 	h := &Hist{ctx: ctx, cfg: cfg, r: r, dir: filepath.Join(base, "w"), home: filepath.Join(base, "home"),
@@ -767,16 +772,20 @@ func runHistCase(ctx *Ctx, cfg *HistCfg, r *rng, idx int) (Case, []string, []Fin
 	for i := range h.viols {
 		h.viols[i].Case = c
 	}
-	return c, h.outs, h.viols, h.stats
+	for i := range h.derived {
+		h.derived[i].Case = c
+	}
+	return c, h.outs, h.viols, h.stats, h.derived
 }
 
 // runHistories executes cfg.Cases adaptive histories in parallel.
-func runHistories(ctx *Ctx, cfg *HistCfg, r *rng) ([]Case, [][]string, []Finding, map[string]int) {
+func runHistories(ctx *Ctx, cfg *HistCfg, r *rng) ([]Case, [][]string, []Finding, map[string]int, []Derived) {
 	n := cfg.Cases
 	cases := make([]Case, n)
 	outs := make([][]string, n)
 	fnds := make([][]Finding, n)
 	stats := make([]map[string]int, n)
+	ders := make([][]Derived, n)
 	seeds := make([]*rng, n)
 	for i := range seeds {
 		seeds[i] = r.fork()
@@ -789,7 +798,7 @@ func runHistories(ctx *Ctx, cfg *HistCfg, r *rng) ([]Case, [][]string, []Finding
 		go func(i int) {
 			defer wg.Done()
 			defer func() { <-sem }()
-			cases[i], outs[i], fnds[i], stats[i] = runHistCase(ctx, cfg, seeds[i], i)
+			cases[i], outs[i], fnds[i], stats[i], ders[i] = runHistCase(ctx, cfg, seeds[i], i)
 		}(i)
 	}
 	wg.Wait()
@@ -801,7 +810,11 @@ func runHistories(ctx *Ctx, cfg *HistCfg, r *rng) ([]Case, [][]string, []Finding
 			total[k] += v
 		}
 	}
-	return cases, outs, all, total
+	var allD []Derived
+	for i := range ders {
+		allD = append(allD, ders[i]...)
+	}
+	return cases, outs, all, total, allD
 }
 
 // replayScript re-executes a recorded script (W/X lines) with the oracles of cfg.
